@@ -135,8 +135,13 @@ func (t *QuicTransport) exchangeStream(ctx context.Context, payload []byte, stre
 		err  error
 	}
 	rc := make(chan res, 1)
+	// The goroutine below may outlive this call (ctx done). It must not use
+	// payload, which the caller releases as soon as this call returns, nor
+	// the named results of this function.
+	workerPayload := copyMsg(payload)
 	go func() {
-		_, err = stream.Write(payload)
+		_, err := stream.Write(workerPayload)
+		pool.ReleaseBuf(workerPayload)
 		if err != nil {
 			stream.CancelRead(_DOQ_REQUEST_CANCELLED)
 			stream.CancelWrite(_DOQ_REQUEST_CANCELLED)
